@@ -274,11 +274,12 @@ def noteclash_family(rng=None):
     return out
 
 
-# NOT part of the generated set (reported to the coordinator, 2026-09-26): the same with a NON-confirmable notification whose message ID
-# equals the connection's next own ID stalls the *unchanged* tree.  `handleReq` takes the per-message-ID lock for every received
-# message and keys it by the number alone, although the peer's IDs and ours are different spaces; `checkMyMessageID` moves our counter
-# away from the peer's confirmable messages only.  The callback runs under lock X (the notification's ID), its nested request is sent
-# with our ID X, and the piggybacked answer (ACK X) waits for lock X: the nested request ends by its deadline.
+# Finding F37 (repaired in /repo 57c17ac): the same with a NON-confirmable notification whose message ID equals the connection's
+# next own ID stalled the tree before the repair.  `handleReq` takes the per-message-ID lock for every received message and keys it
+# by the number alone, although the peer's IDs and ours are different spaces; `checkMyMessageID` moved our counter away from the
+# peer's confirmable messages only.  The callback ran under lock X (the notification's ID), its nested request was sent with our ID
+# X, and the piggybacked answer (ACK X) waited for lock X: the nested request ended by its deadline.  The line is part of the
+# generated set now; a relapse is reported as C11:nested-stall:mid-lock.
 MIDLOCK_NON = ["scn udp 16 0 0 watch:1:g7 resp:1 notem:1:non:+1 resp:7 note:1 sleep:31000 settle"]
 
 
@@ -401,7 +402,7 @@ def corpus_lines():
 def gen_lines(ctx):
     rng = random.Random(ctx.seed * 7727 + 11)
     L = [(l, True) for l in corpus_lines() + FIXED + stale_family() + requeue_family() + callback_family() + framesize_family()
-         + empty_family() + midclash_family() + sametoken_family() + dedup_family() + monitor_family() + noteclash_family() + DUPLOCK + DISCOVERY]
+         + empty_family() + midclash_family() + sametoken_family() + dedup_family() + monitor_family() + noteclash_family() + MIDLOCK_NON + DUPLOCK + DISCOVERY]
     if ctx.tier == "thorough":
         L += [(l, True) for l in DUPLOCK_THOROUGH]
     for _ in range(20 if ctx.tier == "thorough" else 2):
@@ -560,7 +561,7 @@ def explore(ctx, art):
         if impl == "hang":
             # confirmed by a second run on its own with a 60 s limit
             ctx.violations.append(common.Violation(
-                "nested-stall", "C11:nested-stall:dup-lock" if line in DUPLOCK + DUPLOCK_THOROUGH else "C11:nested-stall:hang:" + line,
+                "nested-stall", "C11:nested-stall:dup-lock" if line in DUPLOCK + DUPLOCK_THOROUGH else "C11:nested-stall:mid-lock" if line in MIDLOCK_NON else "C11:nested-stall:hang:" + line,
                 "%s: the history never ends: a goroutine of the connection waits for a lock (not for a channel or the clock), so under "
                 "synctest the bubble is never idle and virtual time stands still; on a real clock the messages queued behind it are not "
                 "processed until the lock holder's own deadline" % line, {"input": [line], "observed": impl}))
